@@ -721,4 +721,94 @@ src: mokapot/tabular_data.py:280-282 -/
 def arrayReader (name : Name) (vals : List β) : Reader β :=
   frameReader ⟨[name], indexFrom 0 (vals.map (fun v => [(name, v)]))⟩
 
+/-! ## Second pass: `from_suffix` with its options left to their defaults -/
+
+/-- `buffer_size: int = 0`.  src: mokapot/tabular_data.py:416 -/
+def defaultBufferSize : Nat := 0
+
+/-- `buffer_type: TableType = TableType.DataFrame`.  src: mokapot/tabular_data.py:417 -/
+def defaultKind : Kind := Kind.dataframe
+
+/-- the object `TabularDataWriter.from_suffix(file_name, columns)` returns when both
+buffer options are omitted.  src: mokapot/tabular_data.py:412-436 -/
+def fromSuffixDefault (w : Writer σ β) : Sess (Option (WFrame β) × σ) β :=
+  fromSuffixSess w defaultKind defaultBufferSize
+
+/-! ## Second pass: one file, several writer objects; objects used again
+
+mokapot itself splits a text file over two writer objects: `confidence.py:692-706`
+creates a writer for the output path and calls `initialize()` (header), and
+`confidence_writer.py:130-158` later creates *another* writer for the same path
+with `from_suffix(path, out_columns)` and only calls `append_data(…)` and
+`finalize()` (CSV append mode).  The state of a *file* with the writer objects
+created for it is: the buffer of every object, and the storage (shared). -/
+
+/-- `write(data)` of the object `from_suffix` returned, whatever state the object is
+in: a `BufferedWriter` hands the frame to the file writer's `write` and leaves its
+own buffer alone; an unbuffered writer is the file writer.
+src: mokapot/tabular_data.py:389-393,555-556,677-678 -/
+def fsWrite (inner : σ → WFrame β → Option σ) (size : Nat) (st : Option (WFrame β) × σ) (f : WFrame β) :
+    Option (Option (WFrame β) × σ) :=
+  if 1 < size then bufWrite1 inner st f else (inner st.2 f).map (fun s => (st.1, s))
+
+/-- one call on a writer object -/
+inductive Call (β : Type) where
+  | init                      -- `initialize()` / `__enter__()`
+  | app (a : Arg β)           -- `append_data(a)`
+  | fin                       -- `finalize()` / `__exit__()`
+  | write (f : WFrame β)      -- `write(f)`
+
+/-- one call on the object `from_suffix(…, buffer_size=o.2, buffer_type=o.1)`
+returned; `inner` is the `write` of the file writer.
+src: mokapot/tabular_data.py:389-406,521-563 -/
+def objStep (w : Writer σ β) (inner : σ → WFrame β → Option σ) (o : Kind × Nat) (st : Option (WFrame β) × σ) :
+    Call β → Option (Option (WFrame β) × σ)
+  | .init => fsInit w st
+  | .app a => fsAppend w o.1 o.2 st a
+  | .fin => fsFinalize w o.1 o.2 st
+  | .write f => fsWrite inner o.2 st f
+
+/-- `objs[j].<call>`: the objects share the storage, each has its own buffer
+(an unknown object number: `IndexError`) -/
+def fileStep (w : Writer σ β) (inner : σ → WFrame β → Option σ) (objs : List (Kind × Nat))
+    (st : List (Option (WFrame β)) × σ) (jc : Nat × Call β) : Option (List (Option (WFrame β)) × σ) :=
+  objs[jc.1]?.bind (fun o => st.1[jc.1]?.bind (fun b =>
+    (objStep w inner o (b, st.2) jc.2).map (fun p => (st.1.set jc.1 p.1, p.2))))
+
+/-- a program of calls on freshly created writer objects for one file -/
+def runCalls (w : Writer σ β) (inner : σ → WFrame β → Option σ) (objs : List (Kind × Nat)) (s0 : σ)
+    (calls : List (Nat × Call β)) : Option (List (Option (WFrame β)) × σ) :=
+  foldOpt (fileStep w inner objs) (objs.map (fun _ => none), s0) calls
+
+/-- a *use* of the file: `objs[j0].initialize()` followed by any number of
+segments `objs[j].append_data(a₁); …; objs[j].finalize()` (one object after the
+other, possibly the same one again), or a one-shot `objs[j].write(f)` -/
+inductive Episode (β : Type) where
+  | run (j0 : Nat) (segs : List (Nat × List (Arg β)))
+  | write (j : Nat) (f : WFrame β)
+
+/-- the calls of one segment -/
+def segCalls (seg : Nat × List (Arg β)) : List (Nat × Call β) :=
+  seg.2.map (fun a => (seg.1, Call.app a)) ++ [(seg.1, Call.fin)]
+
+/-- the calls of an episode -/
+def Episode.calls : Episode β → List (Nat × Call β)
+  | .run j0 segs => (j0, Call.init) :: segs.flatMap segCalls
+  | .write j f => [(j, Call.write f)]
+
+/-- **specification side**: the rows an episode hands over, in call order -/
+def Episode.rows : Episode β → List (Row β)
+  | .run _ segs => segs.flatMap (fun seg => seg.2.flatMap Arg.rows)
+  | .write _ f => f.rows
+
+/-- one object used on its own: a `with writer:` block with these appends, or `write(f)` -/
+inductive Use (β : Type) where
+  | session (args : List (Arg β))
+  | write (f : WFrame β)
+
+/-- the episode object number `j` performs for a use -/
+def Use.episode (j : Nat) : Use β → Episode β
+  | .session args => .run j [(j, args)]
+  | .write f => .write j f
+
 end Mk.Tabular
